@@ -40,6 +40,10 @@ class FaultEnumScenario(WorldScenario):
                         return "kill:K2"
                     return "kill:K3" if "enqueue_task" in detail else "kill:after_query"
                 return "kill:K3" if kind == "cmd:" + SUBMIT_EXE[backend] else "kill:after_query"
+            if ".journal" in detail and kind in ("fs:open_w", "fs:write"):
+                # between the scheduler's acceptance and the durable record of it: like K3, the id of
+                # that one job cannot be known to any later invocation
+                return "kill:K3"
             if is_state:
                 return "kill:K2"
             return "kill:K1"
